@@ -92,6 +92,7 @@ type Def struct {
 	RequireOrder bool     `json:"require_order,omitempty"`
 	LateMode     bool     `json:"late_mode,omitempty"`  // SetMode is called after all options and commands have been declared
 	EarlyHelp    bool     `json:"early_help,omitempty"` // Help() is rendered (and discarded) after every declaration step
+	LateEnv      bool     `json:"late_env,omitempty"`   // the environment variables are set after getoptions.New() and before the options are declared
 	Help         string   `json:"help,omitempty"`       // name of the help command/option, "" = none
 	HelpAliases  []string `json:"help_aliases,omitempty"`
 }
@@ -106,6 +107,9 @@ func (d *Def) ConfigString() string {
 	}
 	if d.LateMode {
 		s += "/SetMode-after-commands"
+	}
+	if d.LateEnv {
+		s += "/env-set-after-New"
 	}
 	return s
 }
@@ -260,15 +264,23 @@ type ctxKey struct{}
 // Build constructs the real program for def with the given environment variables set.
 func Build(def *Def, env map[string]string) *Prog {
 	p := &Prog{Def: def, W: &bytes.Buffer{}, Comp: &bytes.Buffer{}}
-	for k, v := range env {
-		os.Setenv(k, v)
-		p.envSet = append(p.envSet, k)
+	setEnv := func() {
+		for k, v := range env {
+			os.Setenv(k, v)
+			p.envSet = append(p.envSet, k)
+		}
+	}
+	if !def.LateEnv {
+		setEnv()
 	}
 	getoptions.Writer = p.W
 	getoptions.VerifSetCompletionWriter(p.Comp)
 	getoptions.VerifSetExit(func(code int) { p.Exits = append(p.Exits, code) })
 	p.ctx = context.WithValue(context.Background(), ctxKey{}, p)
 	opt := getoptions.New()
+	if def.LateEnv {
+		setEnv()
+	}
 	opt.Self(def.Root.Name, def.Root.Desc)
 	if !def.LateMode {
 		opt.SetMode(getoptions.Mode(def.Mode))
@@ -290,6 +302,15 @@ func Build(def *Def, env map[string]string) *Prog {
 		opt.HelpCommand(def.Help, fns...)
 	}
 	return p
+}
+
+// Reset forgets what the harness recorded so far (CommandFn calls, Writer, exits), so that a further
+// Parse/Dispatch round on the same program object can be observed on its own.
+func (p *Prog) Reset() {
+	p.Calls = nil
+	p.Exits = nil
+	p.W.Reset()
+	p.Comp.Reset()
 }
 
 // Close removes the environment variables set by Build.
@@ -330,9 +351,13 @@ func (p *Prog) build(l *level) {
 		opt.ArgCompletions(d.ArgCompl...)
 	}
 	if d.ArgFn {
+		// two functions registered with one call: every one of them must contribute
 		opt.ArgCompletionsFns(func(target string, prev []string, partial string) []string {
 			p.Fns++
-			return []string{"dyn-" + d.Name + "-1", "dyn-" + d.Name + "-2"}
+			return []string{"dyn-" + d.Name + "-1"}
+		}, func(target string, prev []string, partial string) []string {
+			p.Fns++
+			return []string{"dyn-" + d.Name + "-2"}
 		})
 	}
 	for _, a := range d.SynArgs {
@@ -614,6 +639,13 @@ func (p *Prog) observe(o *Outcome) {
 			o.Called[h.path] = l.opt.Called(h.def.Name)
 			o.CalledAs[h.path] = l.opt.CalledAs(h.def.Name)
 		}
+	}
+	if h := p.Def.Help; h != "" {
+		// the help option declared by HelpCommand at the root (C06 speaks about every option, this one included)
+		o.Vals["/"+h] = renderAny(p.Root.opt.Value(h))
+		o.ValsAPI["/"+h] = o.Vals["/"+h]
+		o.Called["/"+h] = p.Root.opt.Called(h)
+		o.CalledAs["/"+h] = p.Root.opt.CalledAs(h)
 	}
 }
 
